@@ -50,6 +50,12 @@ def handleTs (op : String) (args impl : List String) : Verdict :=
     match t.toInt?, fmtF f (t.toInt?.getD 0) with
     | some _, some s => compare (encS s) (joinT impl) fun _ => false
     | _, _ => .bad "ts.text fmt"
+  | "ts.doc", f :: ts =>
+    -- every boundary of the list comes back truncated to the format's unit
+    let unit : Int := if f = "ssa" then 10000000 else 1000000
+    match mapM? String.toInt? ts with
+    | some ts => compare (joinT (ts.map fun t => toString (t - t % unit))) (joinT impl) fun _ => false
+    | none => .bad "ts.doc"
   | "ts.text", ["parse", f, s] =>
     match decS s with
     | some s => match parseF f s with
